@@ -162,7 +162,91 @@ impl<'a> Gen<'a> {
         h
     }
 
+    /// Targeted scenario: a stream (and its partition) spread over several SEALED segments and absent from the
+    /// live one, then appends whose expectations depend on the stream's latest version (right, stale, Any),
+    /// so that the writer's lookup through the sealed indexes (newest first) decides.
+    fn scenario_multi_sealed(&mut self, thorough: bool) -> Hist {
+        let buckets = *self.rng.pick(&[1u16, 2]);
+        let base = self.rng.below(50) as u16;
+        let keys = vec![base, base, base + buckets];     // key 2: another partition in the same bucket
+        let mut h = Hist { buckets, seg: 131072, comp: self.rng.chance(1, 2), keys, ops: vec![] };
+        let mut ops = Vec::new();
+        let k = self.rng.below(2) as usize;
+        let pid = h.keys[k];
+        let sid = k as u64;                                // the watched stream (belongs to key k)
+        let filler_key = 2usize;
+        let mut ver: i64 = -1;
+        let rounds = self.rng.range(2, if thorough { 4 } else { 3 });
+        for _ in 0..rounds {
+            // one or two small events of the watched stream ...
+            for _ in 0..self.rng.range(1, 2) {
+                let eid = self.next_eid; self.next_eid += 1;
+                let xv = if ver < 0 { Xv::Empty } else if self.rng.chance(1, 2) { Xv::Exact(ver as u64) } else { Xv::Any };
+                ops.push(Op::Append { k, xseq: Xv::Any, roll: false, big: false, evs: vec![Ev { eid, sid, xv, len: self.rng.range(10, 400) as usize, rnd: false, ts_ok: true }] });
+                ver += 1;
+            }
+            // ... then fillers of another key until the segment rolls over (two events above half a segment)
+            for _ in 0..2 {
+                let eid = self.next_eid; self.next_eid += 1;
+                ops.push(Op::Append { k: filler_key, xseq: Xv::Any, roll: false, big: false,
+                    evs: vec![Ev { eid, sid: 2, xv: Xv::Any, len: self.rng.range(66_000, 72_000) as usize, rnd: true, ts_ok: true }] });
+            }
+        }
+        // the stream is now in `rounds` sealed segments (or rounds-1 and the previous live one) and not in the live index
+        if self.rng.chance(1, 3) { ops.push(Op::Reopen); }
+        let mut mk = |g: &mut Self, xv: Xv| { let eid = g.next_eid; g.next_eid += 1;
+            Op::Append { k, xseq: Xv::Any, roll: false, big: false, evs: vec![Ev { eid, sid, xv, len: 50, rnd: false, ts_ok: true }] } };
+        match self.rng.below(4) {
+            0 => { ops.push(mk(self, Xv::Exact(0))); ops.push(mk(self, Xv::Exact(ver as u64))); }          // stale, then right
+            1 => { ops.push(mk(self, Xv::Exact(ver as u64))); ops.push(mk(self, Xv::Exact(ver as u64))); } // right, then stale
+            2 => { ops.push(mk(self, Xv::Any)); ops.push(mk(self, Xv::Exact(ver as u64 + 1))); }
+            _ => { ops.push(mk(self, Xv::Empty)); ops.push(mk(self, Xv::Exists)); }
+        }
+        ops.push(Op::SVer { sid, pid });
+        ops.push(Op::PSeq { pid });
+        ops.push(Op::ScanS { sid, pid, from: 0, rev: false, batch: 50 });
+        ops.push(Op::ScanS { sid, pid, from: u64::MAX, rev: true, batch: 2 });
+        ops.push(Op::ScanP { pid, from: 0, rev: false, batch: 3 });
+        h.ops = ops;
+        h
+    }
+
+    /// Targeted scenario: a crash tears a large multi-event transaction (some whole event records survive, the
+    /// commit record does not), the database is reopened (the torn tail is discarded) and SMALL transactions are
+    /// appended at once — they land inside the region the torn transaction occupied — then read, reopened, read.
+    fn scenario_torn_then_append(&mut self, thorough: bool) -> Hist {
+        let buckets = *self.rng.pick(&[1u16, 2]);
+        let base = self.rng.below(50) as u16;
+        let keys = vec![base, base, base + 2];
+        let mut h = Hist { buckets, seg: 131072, comp: self.rng.chance(1, 2), keys, ops: vec![] };
+        let mut ops = Vec::new();
+        let k = self.rng.below(2) as usize;
+        let pid = h.keys[k];
+        for _ in 0..self.rng.below(3) { let a = self.append_on(&h, k, false, false); ops.push(a); }
+        let rounds = if thorough { 2 } else { 1 };
+        for _ in 0..rounds {
+            let n = self.rng.range(2, 4) as usize;
+            let evs: Vec<Ev> = (0..n).map(|_| { let eid = self.next_eid; self.next_eid += 1;
+                Ev { eid, sid: k as u64, xv: Xv::Any, len: self.rng.range(1500, 9000) as usize, rnd: self.rng.chance(1, 2), ts_ok: true } }).collect();
+            ops.push(Op::Append { k, xseq: Xv::Any, roll: false, big: false, evs });
+            ops.push(Op::Crash { keep: self.rng.range(1, n as u64) as usize, extra: *self.rng.pick(&[0usize, 3, 9, 200]) });
+            for _ in 0..self.rng.range(1, 3) {
+                let eid = self.next_eid; self.next_eid += 1;
+                ops.push(Op::Append { k, xseq: Xv::Any, roll: false, big: false, evs: vec![Ev { eid, sid: k as u64, xv: Xv::Any, len: self.rng.range(0, 300) as usize, rnd: false, ts_ok: true }] });
+                ops.push(Op::ReadEvent { eid, pid });
+            }
+            ops.push(Op::ScanP { pid, from: 0, rev: false, batch: 50 });
+            ops.push(Op::Reopen);
+            ops.push(Op::ScanP { pid, from: 0, rev: false, batch: 3 });
+            ops.push(Op::PSeq { pid });
+        }
+        h.ops = ops;
+        h
+    }
+
     pub fn history(&mut self, thorough: bool) -> Hist {
+        if matches!(self.prop, "C05" | "C01" | "C04") && self.rng.chance(1, 6) { return self.scenario_torn_then_append(thorough); }
+        if matches!(self.prop, "C02" | "C03" | "C01") && self.rng.chance(1, 6) { return self.scenario_multi_sealed(thorough); }
         if matches!(self.prop, "C01" | "C03" | "C04" | "C05") && self.rng.chance(1, 5) { return self.scenario_rollover_fail(thorough); }
         if matches!(self.prop, "C01" | "C02" | "C05") && self.rng.chance(1, 8) { return self.scenario_fill_window(thorough); }
         let buckets = *self.rng.pick(&[1u16, 2, 2]);
@@ -200,6 +284,14 @@ impl<'a> Gen<'a> {
         let nread = if thorough { 14 } else { 8 };
         self.read_ops(&h, &mut ops, nread);
         if self.rng.chance(1, 2) { ops.push(Op::Reopen); self.read_ops(&h, &mut ops, nread / 2); }
+        if matches!(self.prop, "C03" | "C06") && rollover_heavy {
+            // absent keys against the sealed segments' MPHF / bloom indexes (file mode after a reopen)
+            if self.rng.chance(1, 2) { ops.push(Op::Reopen); }
+            let lo = self.rng.below(1500);
+            ops.push(Op::SweepAbsent { lo, hi: lo + if thorough { 500 } else { 250 }, streams: false });
+            let lo = 10 + self.rng.below(1500);
+            ops.push(Op::SweepAbsent { lo, hi: lo + if thorough { 300 } else { 120 }, streams: true });
+        }
         h.ops = ops;
         h
     }
